@@ -896,7 +896,9 @@ fn finish(prop: &dyn Prop, tier: Tier, seed: u64, mut m: Merged, start: Instant)
         "distinct_nontrivial": get(&m, spec.nontrivial),
         "rule": spec.rule,
         "samples": samples,
-        "exhaustive": spec.exhaustive,
+        // a run that hit a cap (leaf cap of a choice tree, abnormal-ending budget, violation cut-off)
+        // is not called exhaustive; the caps hit are in the counters
+        "exhaustive": spec.exhaustive && get(&m, "capped_trees") == 0 && !m.cut_short && get(&m, "cut_short_after_3000_violations") == 0,
         "bounds": spec.bounds,
         "counters": counters_json,
         "outcome_digest": format!("{:016x}", get(&m, "digest")),
